@@ -9,7 +9,8 @@
 (***************************************************************************)
 EXTENDS Pipeline
 CONSTANTS Tools,     \* {"git"} or {"git", "hg"}
-          Extras     \* {FALSE} or BOOLEAN: values of --ignore-vcs-tag and of the uniqueness check
+          Extras,    \* {FALSE} or BOOLEAN: values of --ignore-vcs-tag and of the uniqueness check
+          HookKinds  \* subset of Hook ("fail" and "unstartable" are the same to the machine: both satisfy HookFails)
 vars == pvars
 
 Init == /\ conf = [vcs |-> "git"] /\ lvl = 0 /\ pc = "choose" /\ log = <<>> /\ exit = 0 /\ filesChanged = FALSE
@@ -17,7 +18,7 @@ Choose ==
   /\ pc = "choose"
   /\ \/ lvl = 0 /\ \E v \in Tools, tr \in CfgTriples : conf' = [vcs |-> v, cfg |-> tr] /\ lvl' = 1
      \/ lvl = 1 /\ \E a \in Tri, b \in Tri, c \in Tri : conf' = conf @@ [fcommit |-> a, ftag |-> b, fpush |-> c] /\ lvl' = 2
-     \/ lvl = 2 /\ \E pre \in Hook, post \in Hook, src \in {"config", "cli"} : conf' = conf @@ [pre |-> pre, post |-> post, hooksrc |-> src] /\ lvl' = 3
+     \/ lvl = 2 /\ \E pre \in HookKinds, post \in HookKinds, src \in {"config", "cli"} : conf' = conf @@ [pre |-> pre, post |-> post, hooksrc |-> src] /\ lvl' = 3
      \/ lvl = 3 /\ \E dirty \in BOOLEAN, allow \in BOOLEAN, tagmsg \in BOOLEAN, remote \in BOOLEAN, dry \in BOOLEAN, fetch \in BOOLEAN, ig \in Extras, un \in Extras :
                      conf' = conf @@ [dirty |-> dirty, allow |-> allow, tagmsg |-> tagmsg, remote |-> remote, dry |-> dry, fetch |-> fetch, ignore |-> ig, unique |-> un] /\ lvl' = 4
      \/ lvl = 4 /\ \E f \in Failable : conf' = conf @@ [failat |-> f] /\ lvl' = 5
@@ -41,8 +42,8 @@ RejectFirst == (Contradiction(conf) /\ pc = "done") => log = <<>> /\ ~filesChang
 OnlyIfEnabled == /\ (In("commit") => MCommit(conf)) /\ (In("tag") \/ In("tag_light") => MTag(conf) /\ MCommit(conf))
                  /\ (In("push") \/ In("push_tag") => MPush(conf) /\ MCommit(conf) /\ conf.remote)
                  /\ (In("prehook") => conf.pre # "absent" /\ MCommit(conf)) /\ (In("posthook") => conf.post # "absent")
-StopAtFailure == /\ (In("prehook") /\ conf.pre = "fail" => ~In("add"))
-                 /\ (In("posthook") /\ conf.post = "fail" => ~In("tag") /\ ~In("tag_light") /\ ~In("push") /\ ~In("push_tag"))
+StopAtFailure == /\ (In("prehook") /\ HookFails(conf.pre) => ~In("add") /\ ~In("commit"))
+                 /\ (In("posthook") /\ HookFails(conf.post) => ~In("tag") /\ ~In("tag_light") /\ ~In("push") /\ ~In("push_tag"))
                  /\ (conf.failat = "commit" /\ In("commit") => ~In("posthook") /\ ~In("tag") /\ ~In("tag_light") /\ ~In("push") /\ ~In("push_tag"))
                  /\ (conf.failat = "add" /\ In("add") => ~In("commit"))
                  /\ (conf.failat = "tag" /\ (In("tag") \/ In("tag_light")) => ~In("push") /\ ~In("push_tag"))
